@@ -73,6 +73,8 @@ def _locals_from_config(f: Func) -> Dict[str, str]:
             name = n.targets[0].id
             if isinstance(v, ast.Attribute) and norm(v.value) == 'self._config':
                 cand.setdefault(name, set()).add(v.attr)
+            elif isinstance(v, ast.Attribute) and isinstance(v.value, ast.Name) and v.value.id in config_aliases(f):
+                cand.setdefault(name, set()).add(v.attr)
             else:
                 cand.setdefault(name, set()).add('<other>')
         elif isinstance(n, (ast.AugAssign, ast.AnnAssign, ast.NamedExpr)) and isinstance(n.target, ast.Name):
@@ -84,10 +86,28 @@ def _locals_from_config(f: Func) -> Dict[str, str]:
     return {k: next(iter(v)) for k, v in cand.items() if len(v) == 1 and '<other>' not in v}
 
 
+def config_aliases(f: Func) -> Set[str]:
+    """locals whose every assignment is `x = self._config` (the whole settings tuple under another name)."""
+    cand: Dict[str, Set[str]] = {}
+    for n in ast.walk(f.node):
+        tgt, val = None, None
+        if isinstance(n, ast.Assign) and len(n.targets) == 1 and isinstance(n.targets[0], ast.Name):
+            tgt, val = n.targets[0].id, n.value
+        elif isinstance(n, ast.AnnAssign) and isinstance(n.target, ast.Name) and n.value is not None:
+            tgt, val = n.target.id, n.value
+        elif isinstance(n, (ast.AugAssign, ast.NamedExpr)) and isinstance(n.target, ast.Name):
+            tgt, val = n.target.id, None
+        if tgt is not None:
+            cand.setdefault(tgt, set()).add('cfg' if val is not None and norm(val) == 'self._config' else '<other>')
+    return {k for k, v in cand.items() if v == {'cfg'}}
+
+
 def _fields_in(expr: ast.AST, f: Func, local_map: Dict[str, str]) -> Set[str]:
     out = set()
+    aliases = config_aliases(f)
     for n in ast.walk(expr):
-        if isinstance(n, ast.Attribute) and norm(n.value) == 'self._config':
+        if isinstance(n, ast.Attribute) and (norm(n.value) == 'self._config' or
+                                             (isinstance(n.value, ast.Name) and n.value.id in aliases)):
             out.add(n.attr)
         elif isinstance(n, ast.Name) and n.id in local_map:
             out.add(local_map[n.id])
@@ -126,6 +146,25 @@ def check_settings(prog: Program, rep, rule: str) -> None:
         for e_ in exprs:
             for fld in _fields_in(e_, integ, lm):
                 reached[fld] = f'termination test at line {F.cfg.nodes[t_].line}'
+    # the same by evaluation: the settings whose value decides whether the block raises (any spelling: a helper that
+    # returns the reason, an alias of the settings tuple, a table of limits)
+    from .flow import eval_limit_block
+    from ..abseval import leaves as _leaves
+    lb_read = False
+    try:
+        tree_lb, _ev_lb, _st_lb = eval_limit_block(prog, F, LB)
+        lb_read = not any(t__.kind == 'opaque' and 'debug' not in (t__.key or '') for pth, lf in _leaves(tree_lb)
+                          if lf.kind == 'raise' for t__, _pol in pth)
+        for pth, lf in _leaves(tree_lb):
+            if lf.kind != 'raise':
+                continue
+            for t__, _pol in pth:
+                if t__.rf is not None:
+                    for sym_ in t__.rf.symbols():
+                        if sym_.startswith('cfg.'):
+                            reached.setdefault(sym_[4:], f'decides the termination (evaluated, line {F.cfg.nodes[next(iter(LB.tests))].line if LB.tests else F.loop.lineno})')
+    except AnalysisError:
+        pass
     # accuracy and iteration cap -> zero finder loop
     zl = _locals_from_config(zero)
     zloops = [n for n in ast.walk(zero.node) if isinstance(n, ast.While)]
@@ -133,6 +172,11 @@ def check_settings(prog: Program, rep, rule: str) -> None:
         raise AnalysisError('zero_angle: expected exactly one loop')
     for fld in _fields_in(zloops[0].test, zero, zl):
         reached[fld] = f'zero finder loop test at line {zloops[0].lineno}'
+    # a test inside or after the loop does as well (counted loop with an early return on convergence)
+    for n_ in ast.walk(zero.node):
+        if isinstance(n_, ast.If) and n_.lineno >= zloops[0].lineno:
+            for fld in _fields_in(n_.test, zero, zl):
+                reached.setdefault(fld, f'zero finder test at line {n_.lineno}')
     # gravity -> y of gravity vector
     ev = Evaluator(prog)
     st = State()
@@ -187,7 +231,17 @@ def check_settings(prog: Program, rep, rule: str) -> None:
                 tau_def = defs[0].ast
     if tau_def is None:
         raise AnalysisError('_integrate: the time step (variable added to the time) has no single definition')
-    uses_step = 'self.calc_step' in {norm(x) for x in ast.walk(tau_def.value) if isinstance(x, ast.Attribute)}
+    def reads_calc_step(e: ast.AST, at: ast.AST, depth: int = 0) -> bool:
+        for x in ast.walk(e):
+            if isinstance(x, ast.Attribute) and norm(x) == 'self.calc_step':
+                return True
+            if isinstance(x, ast.Name) and depth < 3:
+                ds = F.defs_reaching(at, x.id)
+                if len(ds) == 1 and isinstance(ds[0].ast, (ast.Assign, ast.AnnAssign)) and ds[0].ast.value is not None \
+                        and ds[0].ast is not at and reads_calc_step(ds[0].ast.value, ds[0].ast, depth + 1):
+                    return True
+        return False
+    uses_step = reads_calc_step(tau_def.value, tau_def)
     if kappa is not None and kappa > 0 and cs_ok and uses_step:
         reached['max_calc_step_size_feet'] = f'calc_step = {kappa:g} * max step -> `{norm(tau_def)[:60]}`'
     else:
@@ -204,6 +258,8 @@ def check_settings(prog: Program, rep, rule: str) -> None:
             continue
         if fld in reached:
             rep.ok(rule, f'{tc.path}:{cfgc.node.lineno}', f'{fld} -> {reached[fld]}')
+        elif fld in ('cMinimumVelocity', 'cMaximumDrop', 'cMinimumAltitude') and not lb_read:
+            raise AnalysisError(f'setting {fld}: the termination block cannot be read, so whether the setting decides it is unknown')
         else:
             rep.fail(rule, tc.path, cfgc.node.lineno, 'TrajectoryCalc', f'setting:{fld}',
                      f'setting {fld} given to the calculator does not reach its role ({SINKS[fld]}): the solver uses '
@@ -215,9 +271,13 @@ def check_settings(prog: Program, rep, rule: str) -> None:
     for n in ast.walk(tc.tree):
         if isinstance(n, ast.Name) and n.id in forbidden:
             hits.append(n)
-        elif isinstance(n, ast.Attribute) and n.attr in forbidden and norm(n.value) != 'self._config' \
-                and not (isinstance(n.value, ast.Name) and n.value.id in ('RangeError',)):
-            hits.append(n)
+        elif isinstance(n, ast.Attribute) and n.attr in forbidden and isinstance(n.value, ast.Name):
+            # only a module object can hand out a module-level default: locals, parameters and classes cannot
+            r_ = tc.imports.get(n.value.id)
+            if r_ is not None and r_[1] is None:
+                hits.append(n)
+            elif r_ is not None and (f'{r_[0]}.{r_[1]}' in prog.modules):
+                hits.append(n)
         elif isinstance(n, ast.ImportFrom) and n.module and n.module.endswith('trajectory_calc') \
                 and any(a.name in forbidden for a in n.names):
             hits.append(n)
@@ -342,6 +402,29 @@ def check_settings(prog: Program, rep, rule: str) -> None:
         p_ = parent(tcalls[0])
         stored = isinstance(p_, ast.Assign) and norm(p_.targets[0]) == 'self._calc'
         own = (direct or via_local) and stored
+    if not own:
+        # the same by evaluation: any spelling (annotated local, helper) of "my settings -> my Config -> my solver"
+        from ..abseval import Evaluator as _Ev2, State as _St2, SymObj as _Sy2, Undecided as _Un2, Inst as _In2
+        seen_ = {'cfg_arg': None, 'solver_arg': None}
+
+        def h_cic(ev_, func, args, kwargs, st_, self_val):
+            seen_['cfg_arg'] = args[0] if args else None
+            return _Sy2('config_of_this_calculator')
+
+        def h_tc(ev_, ci, args, kwargs, st_):
+            seen_['solver_arg'] = args[0] if args else next(iter(kwargs.values()), None)
+            return ev_.new_inst(st_, ci, {'$built_here': _Sy2('yes')})
+        try:
+            ev2 = _Ev2(prog, hooks={'call:create_interface_config': h_cic, 'construct:TrajectoryCalc': h_tc})
+            st2 = _St2()
+            me_ = ev2.new_inst(st2, calc_cls0, {'_config': _Sy2('settings_given')})
+            ev2.call_value(calc_pi, [], self_val=me_, st=st2)
+            built = st2.heap[me_.oid].get('_calc')
+            own = isinstance(seen_['cfg_arg'], _Sy2) and seen_['cfg_arg'].path == 'settings_given' \
+                and isinstance(seen_['solver_arg'], _Sy2) and seen_['solver_arg'].path == 'config_of_this_calculator' \
+                and isinstance(built, _In2) and '$built_here' in st2.heap[built.oid]
+        except _Un2 as exc_:
+            raise AnalysisError(f'{calc_pi.qualname}: {exc_}') from exc_
     if own:
         rep.ok(rule, calc_pi.where, 'each Calculator builds its own TrajectoryCalc from its own settings')
     else:
@@ -406,6 +489,10 @@ def check_global_step(prog: Program, rep, rule: str) -> None:
             p = parent(n)
             v = p.value if isinstance(p, ast.Assign) else None
             init_v = C.const_number(prog, tci, G)
+            if v is not None and not isinstance(v, ast.Constant):
+                folded = C.fold_number(prog, tci, v) if hasattr(C, 'fold_number') else None
+                if folded is not None:
+                    v = ast.Constant(value=float(folded))
             if isinstance(v, ast.Constant) and init_v is not None and float(v.value) == init_v:
                 rep.ok(rule, mod.where(n), f'reset_globals restores the documented default {init_v}')
             else:
@@ -808,6 +895,37 @@ def check_optional_unit_truthiness(prog: Program, rep, rule: str) -> None:
         raise AnalysisError('no consumer of _parse_unit/_find_unit_by_alias found')
 
 
+def _constant_driven(prog: Program, mod, f, key: ast.AST) -> bool:
+    """The attribute name is not a string from outside: it is a loop variable over a literal table of the package, or a
+    parameter of a function every call of which (in the package) passes a literal."""
+    if not isinstance(key, ast.Name) or f is None:
+        return False
+
+    def literal_rows(seq: ast.AST) -> bool:
+        if isinstance(seq, ast.Name):
+            val = prog.const_value(mod, seq.id)
+            return val is not None and literal_rows(val)
+        return isinstance(seq, (ast.Tuple, ast.List)) and all(
+            isinstance(e, ast.Constant) or (isinstance(e, (ast.Tuple, ast.List)) and all(isinstance(x, (ast.Constant, ast.Name, ast.Attribute))
+                                                                                         for x in e.elts))
+            for e in seq.elts)
+    for n in ast.walk(f.node):
+        if isinstance(n, (ast.For, ast.comprehension)) and any(isinstance(x, ast.Name) and x.id == key.id for x in ast.walk(n.target)):
+            return literal_rows(n.iter)
+    if key.id in f.params:
+        sites = []
+        for g in prog.all_funcs():
+            for c in ast.walk(g.node):
+                if isinstance(c, ast.Call) and ((isinstance(c.func, ast.Name) and c.func.id == f.name)
+                                                or (isinstance(c.func, ast.Attribute) and c.func.attr == f.name)):
+                    pos = f.positional[1:] if f.cls is not None and f.positional and f.positional[0] in ('self', 'cls') else f.positional
+                    bound = dict(zip(pos, c.args))
+                    bound.update({k.arg: k.value for k in c.keywords if k.arg})
+                    sites.append(bound.get(key.id))
+        return bool(sites) and all(isinstance(a, ast.Constant) and isinstance(a.value, str) for a in sites)
+    return False
+
+
 def check_dynamic_names(prog: Program, rep, rule: str) -> None:
     umod = prog.module(C.M_UNIT)
     for mod in prog.modules.values():
@@ -821,6 +939,9 @@ def check_dynamic_names(prog: Program, rep, rule: str) -> None:
                 if norm(n.args[0]) == 'cls' and not (f and f.cls and f.cls.name == 'PreferredUnits'):
                     continue
                 key = norm(n.args[1])
+                if _constant_driven(prog, mod, f, n.args[1]):
+                    rep.ok(rule, mod.where(n), f'{fq}: getattr(PreferredUnits, {key}) with names that are literals of the package')
+                    continue
                 # the guard: innermost enclosing `if` whose test mentions the key
                 guard = None
                 for a in ancestors(n):
